@@ -150,8 +150,9 @@ type Exec struct {
 	gated     atomic.Bool
 	finishing bool
 	ndamage   int
-	deadConns map[int]bool    // connections of stopped incarnations
-	baseline  map[string]bool // goroutines (by id) left behind by earlier executions in this process
+	lastAt    map[string]string // gate each process was released from last
+	deadConns map[int]bool      // connections of stopped incarnations
+	baseline  map[string]bool   // goroutines (by id) left behind by earlier executions in this process
 }
 
 func goroutineID(stack string) string {
@@ -665,11 +666,18 @@ func (x *Exec) step(i int, st *Step) bool {
 	g, done := x.W.S.WaitParked(st.P, x.limit)
 	if g == nil {
 		if done {
+			if x.lastAt[st.P] == "lw.wait" {
+				return x.diverge(i, "select-race: "+fmt.Sprintf("process %s has ended, step expects it at %q", st.P, st.At))
+			}
 			return x.diverge(i, fmt.Sprintf("process %s has ended, step expects it at %q", st.P, st.At))
 		}
 		return x.diverge(i, fmt.Sprintf("process %s is not at a gate, step expects it at %q", st.P, st.At))
 	}
 	if st.At != "" && st.At != g.Site {
+		if x.lastAt[st.P] == "lw.wait" {
+			// lockWrite's select had several ready cases (context done, ticker)
+			return x.diverge(i, "select-race: "+fmt.Sprintf("process %s is at %q, step expects %q", st.P, g.Site, st.At))
+		}
 		if strings.HasPrefix(st.At, "abort.") && strings.HasPrefix(g.Site, "abort.") {
 			// Go chose the other ready case of the select in the abort goroutine
 			return x.diverge(i, "select-race: "+fmt.Sprintf("process %s is at %q, step expects %q", st.P, g.Site, st.At))
@@ -677,6 +685,10 @@ func (x *Exec) step(i int, st *Step) bool {
 		return x.diverge(i, fmt.Sprintf("process %s is at %q, step expects %q", st.P, g.Site, st.At))
 	}
 	x.emit(sim.Ev{"e": "step", "i": i + 1, "p": st.P, "at": g.Site, "o": st.O, "n": st.N})
+	if x.lastAt == nil {
+		x.lastAt = map[string]string{}
+	}
+	x.lastAt[st.P] = g.Site
 	x.W.S.Release(st.P, sched.Outcome{Kind: st.O, N: st.N})
 	// let the process reach its next gate (or end); a process that blocks inside the library is
 	// picked up again when a later step needs it
